@@ -74,6 +74,12 @@ type c31In struct {
 	MaxFetch  int64    `json:"maxfetch"`
 	MaxDecomp int64    `json:"maxdecomp"`
 	NoAuto    bool     `json:"noauto,omitempty"` // the caller's transport has DisableCompression
+	// Client: what cfg.HTTPClient is. "" = a client with its own Transport and Timeout and no
+	// CheckRedirect; "default" = nil (http.DefaultClient; the harness swaps http.DefaultTransport
+	// for the run); "permissive" = own CheckRedirect that copies a header across hops and returns
+	// nil; "refuse:K" / "uselast:K" = own CheckRedirect returning an error / http.ErrUseLastResponse
+	// once len(via) >= K and nil before.
+	Client string `json:"client,omitempty"`
 	Site      []c31URL `json:"site,omitempty"`
 	Raw       string   `json:"raw,omitempty"` // redact mode: the URL, %U %P %Q %F stand for the secrets
 	Note      string   `json:"note,omitempty"`
@@ -228,6 +234,7 @@ type c31Event struct {
 	Val   bool
 	First bool
 	ID    int
+	cut   bool // the harness did not pass this request on (runaway fetch)
 }
 
 type c31Env struct {
@@ -509,10 +516,14 @@ func (t *c31RT) RoundTrip(req *http.Request) (*http.Response, error) {
 		e.attempt++
 	}
 	att := e.attempt - 1
-	e.events = append(e.events, c31Event{First: first, ID: id})
+	nEv := len(e.events) + 1
+	e.events = append(e.events, c31Event{First: first, ID: id, cut: nEv > 150})
 	e.mu.Unlock()
 	if id < 0 {
 		e.note("transport: request to a URL outside the site: " + req.URL.String())
+	}
+	if nEv > 150 { // a fetch that follows redirects without any bound: stop feeding it
+		return nil, errors.New("harness: runaway fetch cut off")
 	}
 	r2 := req.Clone(req.Context())
 	r2.Header.Set("X-C31-Att", strconv.Itoa(att))
@@ -570,6 +581,37 @@ func c31RunVariant(in c31In, variant string) c31RunOut {
 		RetryDelay: time.Microsecond,
 		HTTPClient: &http.Client{Transport: &c31RT{base: base, env: e}, Timeout: 10 * time.Second},
 	}
+	kind, kArg := in.Client, 0
+	if i := strings.IndexByte(kind, ':'); i >= 0 {
+		kArg, _ = strconv.Atoi(kind[i+1:])
+		kind = kind[:i]
+	}
+	switch kind {
+	case "default":
+		cfg.HTTPClient = nil
+		saved := http.DefaultTransport
+		http.DefaultTransport = &c31RT{base: base, env: e}
+		defer func() { http.DefaultTransport = saved }()
+	case "permissive":
+		cfg.HTTPClient.CheckRedirect = func(req *http.Request, via []*http.Request) error {
+			req.Header.Set("X-Caller-Trace", "hop-"+strconv.Itoa(len(via)))
+			return nil
+		}
+	case "refuse":
+		cfg.HTTPClient.CheckRedirect = func(req *http.Request, via []*http.Request) error {
+			if len(via) >= kArg {
+				return errors.New("caller policy: no further hop")
+			}
+			return nil
+		}
+	case "uselast":
+		cfg.HTTPClient.CheckRedirect = func(req *http.Request, via []*http.Request) error {
+			if len(via) >= kArg {
+				return http.ErrUseLastResponse
+			}
+			return nil
+		}
+	}
 	if in.VKind != "none" {
 		cfg.URLValidator = e.validator
 	}
@@ -625,7 +667,7 @@ func c31RunVariant(in c31In, variant string) c31RunOut {
 	// the live origins must have received exactly the requests the transport log shows for them
 	var live []int
 	for _, ev := range e.events {
-		if !ev.Val && ev.ID >= 0 {
+		if !ev.Val && ev.ID >= 0 && !ev.cut {
 			if w := in.Site[ev.ID].Where; w == "tls" || w == "plain" {
 				live = append(live, ev.ID)
 			}
@@ -888,7 +930,26 @@ func c31Run(in c31In) CaseOut {
 		site[id] = App("C31.Build_site_url", c31Parts(envA.rawURL(id)), verdict, List(answers))
 	}
 	vk := map[string]string{"none": "C31.VNone", "script": "C31.VScript", "https": "C31.VHttps"}[in.VKind]
-	coqIn := App("C31.IFetch", App("C31.Build_fetch_in", vk, Z(int64(in.Retries)), Z(int64(in.Redirects)), Z(in.MaxFetch), Z(in.MaxDecomp),
+	pol := "C31.CPNone"
+	switch {
+	case in.Client == "permissive":
+		pol = "C31.CPAllow"
+	case strings.HasPrefix(in.Client, "refuse:"):
+		k, _ := strconv.Atoi(in.Client[7:])
+		pol = App("C31.CPRefuseFrom", Nat(k))
+	case strings.HasPrefix(in.Client, "uselast:"):
+		k, _ := strconv.Atoi(in.Client[8:])
+		pol = App("C31.CPUseLastFrom", Nat(k))
+	}
+	ck := in.Client
+	if i := strings.IndexByte(ck, ':'); i >= 0 {
+		ck = ck[:i]
+	}
+	if ck == "" {
+		ck = "own-transport"
+	}
+	tags["client:"+ck] = true
+	coqIn := App("C31.IFetch", App("C31.Build_fetch_in", vk, pol, Z(int64(in.Retries)), Z(int64(in.Redirects)), Z(in.MaxFetch), Z(in.MaxDecomp),
 		List(site), ListOf(b.secrets, B)))
 	// ---- Coq obs ----
 	res := "None"
@@ -1043,6 +1104,31 @@ func c31Gen(r *rand.Rand, n int, tier string) []c31In {
 		in.Redirects = redirects
 		in.Site = []c31URL{{Where: "tls", User: true, Answers: []c31Ans{c31Redirect(307, 1)}}, {Where: "plain", Query: true, Answers: []c31Ans{{Kind: "redirect", Code: 301, To: 0}}}}
 		add(in, "boundary-loop")
+	}
+	// --- what cfg.HTTPClient is: nil, or a client with its own CheckRedirect (permissive, refusing,
+	//     ErrUseLastResponse) — the hop limit and the validator apply on top of ANY caller policy ---
+	for _, redirects := range []int{0, 1, 2} {
+		eff := redirects
+		if eff <= 0 {
+			eff = 5
+		}
+		for _, client := range []string{"default", "permissive", "refuse:1", fmt.Sprintf("refuse:%d", eff), fmt.Sprintf("refuse:%d", eff+2), fmt.Sprintf("uselast:%d", eff), "uselast:1"} {
+			for _, k := range []int{eff - 1, eff, eff + 1, eff + 4} {
+				in := c31Base()
+				in.Client, in.Redirects = client, redirects
+				in.Site = c31Chain(r, k, c31BodyAns("id", 24, ""))
+				add(in, "boundary-client-chain")
+			}
+			in := c31Base() // a loop
+			in.Client, in.Redirects = client, redirects
+			in.Site = []c31URL{{Where: "tls", User: true, Answers: []c31Ans{c31Redirect(307, 1)}}, {Where: "plain", Query: true, Answers: []c31Ans{c31Redirect(301, 0)}}}
+			add(in, "boundary-client-loop")
+			in = c31Base() // a rejected target exactly at, and just inside, the hop limit
+			in.Client, in.Redirects = client, redirects
+			in.Site = c31Chain(r, eff+1, c31BodyAns("id", 24, ""))
+			in.Site[eff].Verdict = "reject"
+			add(in, "boundary-client-rejected-near-limit")
+		}
 	}
 	// --- validators: rejected at every position of a chain; cross-scheme under HTTPSOnlyValidator ---
 	for pos := 0; pos <= 3; pos++ {
@@ -1367,6 +1453,9 @@ func c31Random(r *rand.Rand) c31In {
 		}
 	}
 	in.NoAuto = r.Intn(4) == 0
+	if r.Intn(3) == 0 {
+		in.Client = []string{"default", "permissive", "permissive", fmt.Sprintf("refuse:%d", 1+r.Intn(6)), fmt.Sprintf("uselast:%d", 1+r.Intn(6))}[r.Intn(5)]
+	}
 	if in.Note == "" {
 		in.Note = "random"
 	}
